@@ -10,6 +10,7 @@
 import TE.Driver.Fam
 import TE.Model.Binned
 import TE.Model.Fams
+import TE.Model.FamsCache
 import TE.Spec.Binned
 namespace TE.Driver
 open TE TE.Binned
@@ -285,9 +286,21 @@ def binAurocOut (c : AurocCfg) (cols : List (List Q × List Q)) : Except Err Str
 def aurocCfgOf (cfg : Args) : Except String AurocCfg := do
   pure { t := ← thrOf cfg 200, numTasks := (← cfg.nat? "num_tasks").getD 1 }
 
+/-- runs the typed cache-all class `Fams.binaryBinnedAurocL` (TE/Model/FamsCache.lean); the parameter
+    checks of the constructor precede everything. -/
 def packBinaryBinnedAUROC (cfg : Args) : Except String Pack :=
   match aurocCfgOf cfg with
-  | .ok c => .ok ⟨_, additive (listAcc (List Q × List Q)) (binAurocStat c) (binAurocOut c)⟩
+  | .ok c =>
+    let m := (Fams.binaryBinnedAurocL c.t c.numTasks).cls
+    .ok ⟨List Fams.TaskPair, {
+      init := m.init
+      upd := fun s a => do let cols ← binAurocStat c a; m.upd s cols
+      mrg := m.mrg
+      out := fun s => do
+        if c.numTasks < 1 then throw .value
+        paramCheck c.t
+        let v ← m.out s
+        pure (showVecQ v ++ " " ++ showVecQ c.t) }⟩
   | .error m => .error m
 
 /-- the functional: an empty batch is fine (`0.5`), there is no `torch.cat`. -/
@@ -324,9 +337,27 @@ def mcAurocOut (c : McAurocCfg) (needData : Bool) (s : List (List Q × Nat)) : E
 def mcAurocCfgOf (cfg : Args) : Except String McAurocCfg := do
   pure { t := ← thrOf cfg 200, C := ← cfg.nat "num_classes", avg := avgOf cfg }
 
+/-- the batch of `MulticlassBinnedAUROC.update` after the shape checks: logit rows and labels. -/
+def mcAurocBatch (c : McAurocCfg) (a : Args) : Except Err (Mat × List Nat) := do
+  mcAurocParamOk c
+  let (i, tg) ← io a
+  if !mcShapeOk i tg (some c.C) then throw .value
+  let labs ← liftP (natsOf tg.data)
+  pure (i.rows, labs)
+
+/-- runs the typed cache-all class `Fams.mcBinnedAurocL` (TE/Model/FamsCache.lean). -/
 def packMulticlassBinnedAUROC (cfg : Args) : Except String Pack :=
   match mcAurocCfgOf cfg with
-  | .ok c => .ok ⟨_, additive (listAcc (List Q × Nat)) (mcAurocStat c) (mcAurocOut c true)⟩
+  | .ok c =>
+    let m := (Fams.mcBinnedAurocL c.t c.C).cls
+    .ok ⟨List (List Q × Nat), {
+      init := m.init
+      upd := fun s a => do let b ← mcAurocBatch c a; m.upd s b
+      mrg := m.mrg
+      out := fun s => do
+        mcAurocParamOk c
+        let vals ← m.out s
+        pure (showAvg (c.avg.getD true) vals ++ " " ++ showVecQ c.t) }⟩
   | .error m => .error m
 
 def fnMulticlassBinnedAuroc (a : Args) : Except Err String := do
